@@ -25,8 +25,21 @@ func (r *runner) checkBeliefs() {
 				continue
 			}
 			if c.rt.CurrentSession() == nil {
-				continue // the server has already taken it out (e.g. a refused switch is not the case here)
+				// every answer has been delivered and none of them told the client that it is out
+				// of its session (a refused request changes nothing), yet the server took it out
+				d := fmt.Sprintf("%s was told it is participant %d of session %s and was never told otherwise (its last join request, if any, was refused), but the server has taken it out of the session", c.Label, v.PID, v.SessionID)
+				r.v("C04", "refused-changed-state", "%s", d)
+				r.v("C02", "relay-of-refused", "%s", d)
+				r.v("C07", "orphaned-join", "%s", d)
+				continue
 			}
+			// two connections that were each told, and never told otherwise, that they are in
+			// session <id> were given different uuids: the id was handed out twice
+			if u, dup := ids[v.SessionID]; dup && u != v.UUID {
+				r.v("C10", "session-id-shared", "two live sessions (%s, %s) share the id %s", u, v.UUID, v.SessionID)
+				r.v("C07", "session-id-shared", "two live sessions (%s, %s) share the id %s", u, v.UUID, v.SessionID)
+			}
+			ids[v.SessionID] = v.UUID
 			ss, ok := r.w.Sessions.GetByGlobalID(v.SessionID)
 			if !ok {
 				r.v("C07", "orphaned-join", "%s was told it joined session %s (%s) as participant %d, but that id does not resolve", c.Label, v.SessionID, v.UUID, v.PID)
@@ -47,11 +60,6 @@ func (r *runner) checkBeliefs() {
 			if !found {
 				r.v("C07", "orphaned-join", "%s was told it is participant %d of session %s, but the session does not list it", c.Label, v.PID, v.SessionID)
 			}
-			if u, dup := ids[v.SessionID]; dup && u != v.UUID {
-				r.v("C10", "session-id-shared", "two live sessions (%s, %s) share the id %s", u, v.UUID, v.SessionID)
-				r.v("C07", "session-id-shared", "two live sessions (%s, %s) share the id %s", u, v.UUID, v.SessionID)
-			}
-			ids[v.SessionID] = v.UUID
 		}
 	})
 }
